@@ -126,7 +126,16 @@ def siblings(chk, cg, cl):
            % (len(a), "" if same else ": first difference %s" % next(((x, y) for x, y in zip(a, b) if x[0] != y[0] or sp.simplify(x[1] - y[1]) != 0), (len(a), len(b)))))
     # loop structure agrees too (kinds of loops in order)
     def loops(fn):
-        return [x.get("kind") for x in cfront.walk(cfront.body_of(fn)) if x.get("kind") in ("ForStmt", "WhileStmt", "DoStmt")]
+        out = []
+        for x in cfront.walk(cfront.body_of(fn)):
+            k = x.get("kind")
+            if k == "ForStmt":
+                out.append((k, cfront.render(x["inner"][2]).replace("npts_long", "npts")))
+            elif k == "WhileStmt":
+                out.append((k, cfront.render(x["inner"][0])))
+            elif k == "DoStmt":
+                out.append((k, cfront.render(x["inner"][-1])))
+        return out
     chk.ob("R17.2", "gauleg-copies-same-loop-structure", loops(cg) == loops(cl), "esutil/cosmology/cosmolib.c", "loop nests agree (%s vs %s)" % (loops(cg), loops(cl)))
 
 
@@ -162,6 +171,20 @@ def formulas(chk, fn, name, where):
     has("p2", sp.Integer(0), "recurrence start P_(-1) = 0")
     eps = rows.get("EPS", [])
     chk.ob("R17.3", name + "::tolerance", len(eps) == 1 and eps[0].is_number and 0 < eps[0] <= sp.Rational(1, 10 ** 10), where, "Newton tolerance EPS <= 1e-10 (found %s)" % eps)
+    # the Newton iteration stops only when the step is below the tolerance itself (not a multiple of it that grows with n)
+    nl = [x for x in cfront.walk(cfront.body_of(fn)) if x.get("kind") in ("DoStmt", "WhileStmt")]
+    okc = False
+    ctext = None
+    if len(nl) == 1:
+        cond = nl[0]["inner"][-1] if nl[0]["kind"] == "DoStmt" else nl[0]["inner"][0]
+        c = cfront.strip(cond)
+        ctext = cfront.render(c)
+        if c.get("kind") == "BinaryOperator" and c.get("opcode") in (">", ">="):
+            lhs, rhs = cfront.render(c["inner"][0]), cfront.strip(c["inner"][1])
+            step = rows.get(lhs, [])
+            is_step = any(sp.simplify(g - sp.Abs(S["z"] - S["z1"])) == 0 for g in step) if step else cfront.render(c["inner"][0]).replace(" ", "") in ("fabs((z-z1))", "fabs(z-z1)")
+            okc = is_step and (cfront.render(rhs) == "EPS" or (rhs.get("kind") == "FloatingLiteral" and 0 < float(rhs.get("value")) <= 1e-10))
+    chk.ob("R17.3", name + "::newton-stops-at-tolerance", okc, where, "the root refinement repeats while |z - z1| > EPS, the plain tolerance (found `%s`)" % ctext)
     # shift order inside the recurrence loop: p3 = p2; p2 = p1; p1 = ...
     inner = [x for x in cfront.walk(cfront.body_of(fn)) if x.get("kind") == "ForStmt"]
     seq = []
